@@ -168,6 +168,9 @@ type connScript struct {
 	Refuse bool      `json:"refuse,omitempty"` // accept and close at once
 	// DropAfter: once the groups are exhausted, and this many further client elements arrived, cut the connection
 	IdleDropMs int `json:"idle_drop_ms,omitempty"` // once every group is sent: drop when the client stays silent this long (0: never)
+	// StallDropMs: while groups remain (each waits for the next client element): drop when the client stays silent this
+	// long, i.e. it is blocked reading (e.g. a stray stream header swallowed the rest of the input). 0: 20 s.
+	StallDropMs int `json:"stall_drop_ms,omitempty"`
 }
 
 type connLog struct {
@@ -332,7 +335,11 @@ func (s *scriptedServer) serve(conn net.Conn, sc connScript, lg *connLog) {
 		if sent >= len(sc.Groups) && sc.IdleDropMs > 0 {
 			cur.SetReadDeadline(time.Now().Add(time.Duration(sc.IdleDropMs) * time.Millisecond))
 		} else {
-			cur.SetReadDeadline(time.Now().Add(20 * time.Second))
+			stall := 20 * time.Second
+			if sc.StallDropMs > 0 {
+				stall = time.Duration(sc.StallDropMs) * time.Millisecond
+			}
+			cur.SetReadDeadline(time.Now().Add(stall))
 		}
 		tok, err := dec.Token()
 		if err != nil {
